@@ -198,7 +198,9 @@ Theorem vv_binop_no_duplicate_series op rb m lhs rhs out :
   (vm_on m = true -> ~ In name_label (vm_labels m)) ->
   vv_binop op rb m lhs rhs = Some out -> NoDup (map fst out).
 Proof.
-  intros Hon H. unfold vv_binop in H. destruct (nodup_sigs _); [|discriminate].
+  intros Hon H. unfold vv_binop in H.
+  destruct (is_nil lhs || is_nil rhs); [injection H as <-; constructor|].
+  destruct (nodup_sigs _); [|discriminate].
   destruct (vv_loop_sigs op rb m rhs Hon _ _ _ H) as [Hn _].
   apply (NoDup_map_NoDup (sig m)). rewrite map_map. exact Hn.
 Qed.
@@ -244,15 +246,27 @@ Qed.
    (arithmetic, or a comparison with bool), then with  P l r := l in lhs, r in rhs, same signature:
    every l has at most one r, every r has at most one l, and the answer is exactly one element per pair of P, carrying
    upstream's resultMetric label set and the operator applied to the two values. *)
+Lemma partnered_nil_r m lhs : partnered m [] lhs = [].
+Proof. unfold partnered. induction lhs as [|l lhs IH]; simpl; auto. Qed.
+
 Theorem vv_one_to_one_partial_bijection op rb m lhs rhs out :
   is_cmp op && negb rb = false ->
   vv_binop op rb m lhs rhs = Some out ->
-  (forall l r r', In r rhs -> In r' rhs -> sigf m l = sigf m r -> sigf m l = sigf m r' -> r = r') /\
+  (forall l r r', In l lhs -> In r rhs -> In r' rhs -> sigf m l = sigf m r -> sigf m l = sigf m r' -> r = r') /\
   (forall l l' r, In l lhs -> In l' lhs -> In r rhs -> sigf m l = sigf m r -> sigf m l' = sigf m r -> l = l') /\
   out = map (pair_out op rb m rhs) (partnered m rhs lhs) /\
   (forall l, In l (partnered m rhs lhs) <-> In l lhs /\ exists r, In r rhs /\ sigf m l = sigf m r).
 Proof.
-  intros Hf H. unfold vv_binop in H. destruct (nodup_sigs (map (fun e => sig m (fst e)) rhs)) eqn:En; [|discriminate].
+  intros Hf H. unfold vv_binop in H.
+  destruct (is_nil lhs || is_nil rhs) eqn:Es.
+  { injection H as <-. apply orb_true_iff in Es. destruct Es as [Es|Es].
+    - destruct lhs; [|discriminate]. cbn [partnered filter map].
+      split; [intros l r r' []|]. split; [intros l l' r []|]. split; [reflexivity|].
+      intros l. split; [intros []|intros [[] _]].
+    - destruct rhs; [|discriminate]. rewrite partnered_nil_r. cbn [map].
+      split; [intros l r r' _ []|]. split; [intros l l' r _ _ []|]. split; [reflexivity|].
+      intros l. split; [intros []|intros [_ [r [[] _]]]]. }
+  destruct (nodup_sigs (map (fun e => sig m (fst e)) rhs)) eqn:En; [|discriminate].
   change (map (fun e => sig m (fst e)) rhs) with (map (sigf m) rhs) in En.
   destruct (vv_loop_total op rb m rhs Hf _ _ _ H) as [Ho [Hn _]].
   assert (Hp : forall l, In l (partnered m rhs lhs) <-> In l lhs /\ exists r, In r rhs /\ sigf m l = sigf m r).
@@ -261,7 +275,7 @@ Proof.
       destruct (lookup_sig_some _ _ _ _ E). exists r. split; auto.
     - intros [Hin [r [Hr E]]]. split; auto. rewrite E. rewrite lookup_sig_complete; auto. apply nodup_sigs_NoDup. exact En. }
   split; [|split; [|split]].
-  - intros l r r'. apply match_right_unique. exact En.
+  - intros l r r' _. apply match_right_unique. exact En.
   - intros l l' r Hin Hin' Hr E E'. apply (NoDup_map_inj (sigf m) (partnered m rhs lhs)); [exact Hn| | |congruence].
     + apply Hp. split; auto. exists r. auto.
     + apply Hp. split; auto. exists r. auto.
